@@ -13,6 +13,22 @@ COMMON_NOTE = ('Trusted: Coq 8.16.1 kernel (full .vo builds, vm_compute for fini
                'harness and oracles. Axioms: see Print Assumptions output copied into the evidence file.')
 
 CLAIMED = {
+    'C07': dict(
+        text='Theorems C07_timedelta_roundtrip (for every normalised delta, unbounded days: the keywords printed - zero '
+             'ones dropped, days split into years*365+days - add up with the constructor\'s weights to exactly the '
+             'delta; Euclidean division facts by lia), C07_datetime_roundtrip / C07_time_roundtrip (dropping the zero '
+             'suffix of microsecond/second/minute/hour and the three-positional form lose nothing: the constructor '
+             'rebuilds every field, tzinfo presence and fold). The selection/arithmetic model is compared with the '
+             'keywords actually printed for every generated timedelta / datetime / time. Totality and faithfulness of '
+             'ALL bundled standard-library printers on real objects (object protocol: attribute availability, '
+             'constructor semantics) cannot be predicted by a field-level model and are decided by the oracle run: '
+             'seeded instances of 21 type families incl. boundary values, alone and nested, widths 1..200: no '
+             '"raised an exception" warning, eval(text) is an equal object of the same type.',
+        design='5.4 C07', technique='Coq proofs (arithmetic / selection round trips of the datetime-family printers) + model correspondence + eval oracle on real standard-library objects',
+        note=COMMON_NOTE + ' PARTIAL: only the datetime-family printers have a Coq model; the collection / functools '
+             '/ enum / uuid / pathlib / exception printers are one-line pretty_call forms covered by C17\'s theorems for '
+             'pretty_call and here by the oracle only. Lambdas and <locals> classes are not evaluable by nature and '
+             'are outside the generator. Open finding: localized pytz DstTzInfo.'),
     'C20': dict(
         text='Theorems C20_all_schedules_safe / C20_finished_threads_printed (Proofs/ThreadProofs.v: for ANY number of '
              'threads and EVERY interleaving of the steps of the promotion of a lazily registered printer - get, test, '
